@@ -372,8 +372,26 @@ static std::string answer_data(Ctx& c, PeerS* p, const Req& r) {
   return d;
 }
 
+static void wait_hash(Ctx& c);
+// A verdict on a piece to which p supplied a block may disconnect p (mark_failed_peers /
+// mark_and_disconnect_if_single_peer / erase_seeders) before the bytes p is about to send are read, and the
+// recorded order [stimulus, verdict] would then be wrong: let such verdicts arrive first.
+static void settle_verdicts_involving(Ctx& c, PeerS* p) {
+  auto* tl = c.T->main()->delegator()->transfer_list();
+  bool involved = false;
+  for (torrent::BlockList* bl : *tl) {
+    if (!torrent::ThreadMain::thread_main()->hash_queue()->has(hq_id(c.T), bl->index())) continue;
+    for (auto& blk : *bl)
+      for (auto* t : *blk.transfers())
+        if (t->peer_info() == p->info) involved = true;
+  }
+  if (involved) wait_hash(c);
+}
+
 // header, pump, look at what RequestList::downloading decided, then the data in one go
 static void send_piece_header(Ctx& c, PeerS* p, uint32_t idx, uint32_t off, uint32_t len) {
+  settle_verdicts_involving(c, p);
+  if (!usable(c, p)) return;
   p->w.send_bytes(WirePeer::be32(9 + len) + std::string(1, char(WirePeer::PIECE)) + WirePeer::be32(idx) + WirePeer::be32(off));
   pump_all(c);
   torrent::PeerConnectionBase* pcb = c.S->find_connection(c.T, p->port);
@@ -387,6 +405,8 @@ static void send_piece_header(Ctx& c, PeerS* p, uint32_t idx, uint32_t off, uint
 }
 static void send_data(Ctx& c, PeerS* p, const std::string& d) {
   if (d.empty() || !usable(c, p)) return;
+  settle_verdicts_involving(c, p);
+  if (!usable(c, p)) return;
   p->w.send_bytes(d);
   c.ev.push_back("B:" + std::to_string(p->id) + ":" + hex(d));
   c.n_write_ops++;
